@@ -81,4 +81,7 @@ def run_cli(ctx, cli, cases):
             ctx.violate("cli", "process-crash:%s:%s" % ((case or {}).get("cmd"), (case or {}).get("flag")),
                         "the pprof process died on this command line: " + (msg[i:i + 900] if i >= 0 else msg[-900:]), case)
             skip = idx + 1
-    raise vcheck.Infra("cli harness crashed too many times")
+    # every crash so far is a recorded violation on the real code: report those; the rest of the catalogue was not explored
+    ctx.notes.append("the cli harness process died %d times; exploration of the remaining command lines was abandoned" % 8)
+    if not any(v.get("check") == "cli" for v in ctx.violations):
+        raise vcheck.Infra("cli harness crashed too many times")
